@@ -129,7 +129,8 @@ SOURCE_TIE = {
     "C02": "the PBKDF2 round count and the salt prefix text (SourceTie.seed_rounds)",
     "C03": "the hardened bit and the master HMAC key (SourceTie.hardened_bit, master_key)",
     "C14": "the default path text of Path::for_index (SourceTie.default_path)",
-    "C16": "the default path text of Path::for_index (SourceTie.default_path)",
+    "C16": "the default path text of Path::for_index and the default account index (SourceTie.default_path, default_account_index)",
+    "C04": "the two slice offsets of the address computation, SEC1 tag byte and first 12 digest bytes (SourceTie.address_slices)",
     "C07": "the RLP short-form limit, long-form bias, string/list offsets and single-byte limit (SourceTie.rlp_short, rlp_long, rlp_list_offset, rlp_bytes_consts)",
     "C11": "the v offsets 27 and 35 and the factor 2 (SourceTie.sig_v_legacy, sig_v_eip155)",
     "C15": "the two accepted v bytes of the signature parser (SourceTie.sig_parse_v)",
